@@ -25,6 +25,30 @@ ENCODED = ["twisted.application._client_service:makeMachine", "twisted.applicati
            "twisted.internet.task:Clock.advance", "twisted.internet.task:Clock.callLater"]
 BOUNDS = {"quick": {"plain": 5, "prep": 5}, "thorough": {"plain": 7, "prep": 7}}
 B = {}
+BOUNDS_TEXT = ("every history of <= plain events (no prepareConnection hook) and of <= prep events (hook returning a "
+               "Deferred the harness fires or fails later; with a hook returning at once: one event less) over "
+               "{startService, stopService, whenConnected(None), whenConnected(k) with k symbolic in 1..2, attempt "
+               "succeeds, attempt fails, connection drops, prepareConnection Deferred succeeds / fails, advance the "
+               "clock to the retry / by half the remaining delay}; retry policy 1, 2, 4, ... seconds for the 1st, "
+               "2nd, 3rd consecutive failure (concrete floats)")
+OUTSIDE = ["calling stopService / whenConnected re-entrantly from a whenConnected callback (automat refuses a "
+           "re-entrant input that returns a value); protocol factories returning None; retry policies with symbolic "
+           "or non-positive delays; the default jittered backoffPolicy; real endpoints/reactors",
+           "attempt Deferreds whose canceller fires them itself; prepareConnection Deferreds with their own canceller",
+           "histories longer than the bound",
+           "the three OPEN findings about the prepareConnection window (stop / connection loss while the hook's "
+           "Deferred is pending; a rejected connection is left open) are excluded exactly by EXCLUDE while open"]
+ASSUMPTIONS = ["an event that cannot happen in the current state (firing an attempt that is not pending, dropping a "
+               "connection that does not exist, advancing a clock with no timer, a duplicate startService - which "
+               "is executed and checked to change nothing) ends the path: the history without it is inside the bound",
+               "the fake endpoint fires its Deferred with the protocol built by the factory ClientService passed "
+               "to connect(), after makeConnection, as stream endpoints do; cancelling an attempt fails it at once "
+               "with CancelledError (Deferred.cancel semantics)",
+               "the harness's book (want/ consecutive failures / per-waiter failure counts / connection at stop "
+               "time) is the specification the observations are compared with"]
+EXPLANATION = ("real ClientService driven through its public API by a solver-chosen event history with a fake "
+               "endpoint/transport and the real task.Clock; after every event the observations are compared with a "
+               "specification-level book")
 
 START, STOP, WC_NONE, WC_K, SUCCEED, FAIL, DROP, PREP_OK, PREP_FAIL, ADV_FULL, ADV_HALF = range(11)
 
@@ -115,7 +139,9 @@ class _Env:
         self.not_before = None      # earliest time the next attempt may start
         self.policy_calls = []
         self.svc = ClientService(self, _Factory(), retryPolicy=self.policy, clock=self.clock,
-                                 prepareConnection=(self.prepare if use_prep else None))
+                                 prepareConnection=(None if use_prep == 0 else
+                                                    self.prepare if use_prep == 1 else self.prepare_sync))
+        self.sync_prepared = []
         self.use_prep = use_prep
 
     def flag(self, what):
@@ -143,16 +169,35 @@ class _Env:
         self.attempts.append(a)
         return a.d
 
-    def prepare(self, protocol):
-        d = Deferred()
+    def _conn_of(self, protocol):
         conn = None
         for c in self.conns:
             if c.proto is protocol or c.proxy is protocol:
                 conn = c
         if conn is None:
             self.flag("prepareConnection called with an unknown protocol")
+        return conn
+
+    def prepare(self, protocol):           # hook returning a Deferred the harness fires later
+        d = Deferred()
+        conn = self._conn_of(protocol)
+        if conn is not None and (conn.proto.transport is None or self.waiters_fired_with(conn.proto)):
+            self.flag("prepareConnection must run after makeConnection and before any waiter fires")
         self.prep_pending.append((d, conn))
         return d
+
+    def prepare_sync(self, protocol):      # hook returning at once; its result must be ignored
+        conn = self._conn_of(protocol)
+        if conn is not None and (conn.proto.transport is None or self.waiters_fired_with(conn.proto)):
+            self.flag("prepareConnection must run after makeConnection and before any waiter fires")
+        self.sync_prepared.append(conn)
+        return "ignored"
+
+    def waiters_fired_with(self, proto):
+        for w in self.waiters:
+            if w.results and w.results[0][0] == "ok" and w.results[0][1] is proto:
+                return True
+        return False
 
     # ---- queries ----
     def pending_attempt(self):
@@ -311,9 +356,11 @@ def _run(use_prep, ops, ks):
                 return False
             env.conns.append(conn)
             att.status = "ok"
-            if not use_prep:
+            if use_prep != 1:
                 env.book_connected(conn)
             att.d.callback(proxy)
+            if use_prep == 2 and (len(env.sync_prepared) != len(env.conns) or env.sync_prepared[-1] is not conn):
+                return False            # the hook runs once per new connection
         elif o == FAIL:
             att = env.pending_attempt()
             if att is None:
@@ -395,24 +442,25 @@ def plain(n: int, o0: int, o1: int, o2: int, o3: int, o4: int, o5: int, o6: int,
     pre: 1 <= k4 <= 2 and 1 <= k5 <= 2 and 1 <= k6 <= 2
     post: _
     """
-    return _run(False, _ops(n, [o0, o1, o2, o3, o4, o5, o6]), [k0, k1, k2, k3, k4, k5, k6])
+    return _run(0, _ops(n, [o0, o1, o2, o3, o4, o5, o6]), [k0, k1, k2, k3, k4, k5, k6])
 
 
-def prep(n: int, o0: int, o1: int, o2: int, o3: int, o4: int, o5: int, o6: int,
+def prep(pm: int, n: int, o0: int, o1: int, o2: int, o3: int, o4: int, o5: int, o6: int,
          k0: int, k1: int, k2: int, k3: int, k4: int, k5: int, k6: int) -> bool:
     """
-    pre: 0 <= n <= B['prep']
+    pre: 0 <= pm <= 1 and 0 <= n <= B['prep'] and (pm == 0 or n < B['prep'])
     pre: 0 <= o0 <= 10 and 0 <= o1 <= 10 and 0 <= o2 <= 10 and 0 <= o3 <= 10
     pre: 0 <= o4 <= 10 and 0 <= o5 <= 10 and 0 <= o6 <= 10
     pre: 1 <= k0 <= 2 and 1 <= k1 <= 2 and 1 <= k2 <= 2 and 1 <= k3 <= 2
     pre: 1 <= k4 <= 2 and 1 <= k5 <= 2 and 1 <= k6 <= 2
     post: _
     """
-    return _run(True, _ops(n, [o0, o1, o2, o3, o4, o5, o6]), [k0, k1, k2, k3, k4, k5, k6])
+    if pm == 0:
+        return _run(1, _ops(n, [o0, o1, o2, o3, o4, o5, o6]), [k0, k1, k2, k3, k4, k5, k6])
+    return _run(2, _ops(n, [o0, o1, o2, o3, o4, o5, o6]), [k0, k1, k2, k3, k4, k5, k6])
 
 
 # ---- open findings: which family (if any) a history belongs to -------------------------------
-K_INIT = "init-waiter-not-cancelled-by-stop"
 K_STOP_PREP = "stop-during-prepare-leaks-connection"
 K_LOST_PREP = "lost-during-prepare-notransition"
 K_REJECT = "rejected-connection-left-open"
@@ -422,18 +470,16 @@ def _family(use_prep, n, o0, o1, o2, o3, o4, o5, o6):
     """Specification-level walk over the events (no real code): returns the key of the first known
     finding family the history runs into, or None.  It stops exactly where the harness stops (no-op
     events), so evaluating it in a precondition adds no paths of its own."""
-    ever = want = att = timer = closing = initw = False
+    want = att = timer = closing = False
     conn = None            # None | "prep" | "est"
     for o in _ops(n, [o0, o1, o2, o3, o4, o5, o6]):
         if o == START:
             if want:
                 return None
-            want = ever = True
+            want = True
             if conn is None:
                 att = True
         elif o == STOP:
-            if not ever and initw:
-                return K_INIT
             want = False
             if conn == "prep":
                 return K_STOP_PREP
@@ -442,8 +488,7 @@ def _family(use_prep, n, o0, o1, o2, o3, o4, o5, o6):
             else:
                 att = timer = False
         elif o == WC_NONE or o == WC_K:
-            if not ever:
-                initw = True
+            pass
         elif o == SUCCEED:
             if not att:
                 return None
@@ -485,15 +530,14 @@ def _family(use_prep, n, o0, o1, o2, o3, o4, o5, o6):
 
 _ARGS = "n, o0, o1, o2, o3, o4, o5, o6"
 EXCLUDE = {
-    K_INIT: {"plain": "_family(False, %s) != K_INIT" % _ARGS, "prep": "_family(True, %s) != K_INIT" % _ARGS},
-    K_STOP_PREP: {"prep": "_family(True, %s) != K_STOP_PREP" % _ARGS},
-    K_LOST_PREP: {"prep": "_family(True, %s) != K_LOST_PREP" % _ARGS},
-    K_REJECT: {"prep": "_family(True, %s) != K_REJECT" % _ARGS},
+    K_STOP_PREP: {"prep": "_family(pm == 0, %s) != K_STOP_PREP" % _ARGS},
+    K_LOST_PREP: {"prep": "_family(pm == 0, %s) != K_LOST_PREP" % _ARGS},
+    K_REJECT: {"prep": "_family(pm == 0, %s) != K_REJECT" % _ARGS},
 }
 
 
 def classify(harness_name, args):
-    return _family(harness_name == "prep", *[args[k] for k in ("n", "o0", "o1", "o2", "o3", "o4", "o5", "o6")])
+    return _family(harness_name == "prep" and args["pm"] == 0, *[args[k] for k in ("n", "o0", "o1", "o2", "o3", "o4", "o5", "o6")])
 
 
 def _ops(n, os_):
@@ -503,10 +547,27 @@ def _ops(n, os_):
     return os_
 
 
+def _shards(extra):
+    # before the first startService only start/stop/whenConnected do anything (a first event >= 4 is a
+    # no-op); the subtree behind a first startService is split by the second event
+    out = [("n <= 1 or o0 >= 4",)]
+    for m in extra:
+        for a in (1, 2, 3):
+            out.append(("n >= 2 and o0 == %d%s" % (a, m),))
+        for b_ in (1, 2, 3, 4, 5):
+            out.append(("n >= 2 and o0 == 0 and o1 == %d%s" % (b_, m),))
+        out.append(("n >= 2 and o0 == 0 and (o1 == 0 or o1 >= 6)%s" % m,))
+    return out
+
+
 HARNESSES = [
-    # before the first startService only start/stop/whenConnected do anything: first event >= 4 is a no-op
-    H(plain, shards=[("n <= 1 or o0 >= 4",)] + [("n >= 2 and o0 == %d" % a,) for a in range(4)],
-      timeout={"quick": 100, "thorough": 1500}),
-    H(prep, shards=[("n <= 1 or o0 >= 4",)] + [("n >= 2 and o0 == %d" % a,) for a in range(4)],
-      timeout={"quick": 100, "thorough": 1500}),
+    H(plain, shards=_shards([""]), timeout={"quick": 100, "thorough": 1500}),
+    H(prep, shards=_shards([" and pm == 0", " and pm == 1"]), timeout={"quick": 100, "thorough": 1500}),
 ]
+
+VECTORS = {
+    "plain": [(4, 0, 4, 1, 6, 0, 0, 0, 1, 1, 1, 1, 1, 1, 1), (5, 0, 3, 5, 9, 5, 0, 0, 1, 2, 1, 1, 1, 1, 1),
+              (7, 0, 4, 1, 2, 0, 1, 6, 1, 1, 1, 1, 1, 1, 1), (5, 0, 5, 10, 10, 4, 0, 0, 1, 1, 1, 1, 1, 1, 1),
+              (2, 2, 1, 0, 0, 0, 0, 0, 1, 1, 1, 1, 1, 1, 1)],
+    "prep": [(0, 7, 0, 2, 4, 7, 3, 6, 9, 1, 1, 1, 1, 2, 1, 1), (1, 6, 0, 2, 4, 3, 1, 6, 0, 1, 1, 1, 1, 1, 1, 1)],
+}
